@@ -375,6 +375,7 @@ func newSMT() *SMT {
 	s.axiom("sconcat_byte", "(forall ((a Str) (b Str) (i Int)) (! (= (sbyte (sconcat a b) i) (ite (< i (slen a)) (sbyte a i) (sbyte b (- i (slen a))))) :pattern ((sbyte (sconcat a b) i))))", false, "sconcat")
 	s.axiom("sconcat_unit_l", "(forall ((a Str) (b Str)) (! (=> (= (slen a) 0) (= (sconcat a b) b)) :pattern ((sconcat a b))))", false, "sconcat")
 	s.axiom("sconcat_unit_r", "(forall ((a Str) (b Str)) (! (=> (= (slen b) 0) (= (sconcat a b) a)) :pattern ((sconcat a b))))", false, "sconcat")
+	s.axiom("sconcat_assoc", "(forall ((a Str) (b Str) (c Str)) (! (= (sconcat (sconcat a b) c) (sconcat a (sconcat b c))) :pattern ((sconcat (sconcat a b) c))))", false, "sconcat")
 	s.axiom("sslice_len", "(forall ((a Str) (i Int) (j Int)) (! (=> (and (<= 0 i) (<= i j) (<= j (slen a))) (= (slen (sslice a i j)) (- j i))) :pattern ((sslice a i j))))", false, "sslice")
 	s.axiom("sslice_byte", "(forall ((a Str) (i Int) (j Int) (k Int)) (! (=> (and (<= 0 i) (<= i j) (<= j (slen a)) (<= 0 k) (< k (- j i))) (= (sbyte (sslice a i j) k) (sbyte a (+ i k)))) :pattern ((sbyte (sslice a i j) k))))", false, "sslice")
 	s.axiom("sslice_full", "(forall ((a Str)) (! (= (sslice a 0 (slen a)) a) :pattern ((sslice a 0 (slen a)))))", false, "sslice")
